@@ -246,8 +246,13 @@ def _shipped_events(first_id: int):
         with open(path, encoding="utf-8") as handle:
             text = handle.read()
         lex_lines.extend(line for line in text.splitlines() if line.strip())
-        tokens = rp.Tokeniser(text.expandtabs()).tokens
-        parser = rp.Parser(text, sigs, cats, rules, aliases)
+        parsed = guarded(lambda: (rp.Tokeniser(text.expandtabs()).tokens, rp.Parser(text, sigs, cats, rules, dict(aliases))), None)
+        ident = first_id + len(events)
+        events.append({"id": ident, "op": "file", "file": os.path.basename(path), "exc": parsed["exc"]})
+        info[ident] = {"file": os.path.basename(path), "item": "whole file"}
+        if parsed["exc"]:
+            continue
+        tokens, parser = parsed["v"]
         rules, aliases = parser.rules, parser.aliases
         by_name = {rule.name: rule for rule in rules}
         starts = [idx for idx, token in enumerate(tokens) if token.type in (rp.TokenTypes.RULE, rp.TokenTypes.DEFINE)]
@@ -275,9 +280,7 @@ def _shipped_events(first_id: int):
         ident = first_id + len(events)
         res = guarded(lambda: [{"name": rule.name, "cutoff": _whole(rule.cutoff), "nbhd": _whole(rule.neighbourhood)}
                                for rule in hmm_detection.get_ruleset(options).rules], [])
-        if res["exc"]:
-            raise MachineryError(f"get_ruleset failed on the shipped rules: {res['exc']}")
-        events.append({"id": ident, "op": "scaled", "mult": mult, "rules": res["v"]})
+        events.append({"id": ident, "op": "scaled", "mult": mult, "rules": res["v"], "exc": res["exc"]})
         info[ident] = {"file": "strict+relaxed+loose", "item": f"get_ruleset(fungi, multipliers {mult})"}
     return events, info, lex_lines
 
@@ -508,7 +511,9 @@ def run(ctx):
         describe[ident] = {"op": "lex", "input": {"text": line}, "call": f"Tokeniser({line!r}).tokens", "features": ["lex"],
                            "sampled": False, "observed": {"toks": line_events[-1]["toks"]}}
     ctx.validate("RuleGrammar_Trace", line_events, describe)
-    ctx.sample({"shipped": shipped_info[shipped[1]["id"]], "observed": shipped[1]["obs"] if shipped[1]["kind"] == "RULE" else {}})
+    first_rule = next((event for event in shipped if event["op"] == "item" and event["kind"] == "RULE"), None)
+    if first_rule:
+        ctx.sample({"shipped": shipped_info[first_rule["id"]], "observed": first_rule["obs"]})
     phases["shipped_files_s"] = ctx.timer.elapsed()
     ctx.notes["phases_cumulative_wall"] = phases
     ctx.evaluations = validated + len(shipped) + len(line_events)
@@ -535,14 +540,22 @@ def replay(ctx, record):
     import_repo()
     case = dict(record["input"])
     case["id"] = 0
-    if "text" in case:
-        event = _lex_event(0, case["text"])
-        by_id = {0: {"op": "lex", "input": record["input"], "call": record.get("call", "")}}
-    else:
+    if "files" in case:
         case.setdefault("kind", "replay")
         with tempfile.TemporaryDirectory(prefix="c02_") as directory:
             event = _observe(case, directory)
         by_id = {0: {"op": case["via"], "input": record["input"], "call": call_text(case), "observed": event["res"]}}
-    res = ctx.validate("RuleGrammar_Trace", [event], by_id)
+        res = ctx.validate("RuleGrammar_Trace", [event], by_id)
+    elif "text" in case:
+        event = _lex_event(0, case["text"])
+        by_id = {0: {"op": "lex", "input": record["input"], "call": record.get("call", ""), "observed": {"toks": event["toks"]}}}
+        res = ctx.validate("RuleGrammar_Trace", [event], by_id)
+    else:
+        # an item of the shipped rule files: the stateful trace is replayed as a whole
+        shipped, info, _ = _shipped_events(1)
+        by_id = {event["id"]: {"op": event["op"], "input": info[event["id"]], "call": record.get("call", ""), "observed": {}}
+                 for event in shipped}
+        res = ctx.validate("RuleGrammar_Trace", shipped, by_id, shards=1)
+        ctx.failures = [f for f in ctx.failures if f["input"] == record["input"]]
     ctx.failures = [f for f in ctx.failures if f["op"] == record["op"] and f["clause"] == record["clause"]]
     return res
